@@ -19,8 +19,8 @@ QUERIES = [
 ]
 for L in range(0, 81):
     QUERIES.append(q("ecdsa_der_parse_len%02d" % L, "harness_ecdsa_sig", "ecdsa_signature_parse_der on a separate input object of exactly %d bytes (all byte values): no read past the end; parsed signature handed to normalize / serialize" % L,
-                     defs=["DERONLY", "DERLEN=%d" % L], bounds="len = %d" % L, tier="quick" if (L <= 10 or L in (35, 36, 70, 71, 72, 73)) else "thorough", timeout=900, mem_gb=4))
-for m, tier in ((0, "quick"), (1, "quick")):     # classes 2, 3, 8: symbolic execution ran out of memory at 12 GB (4 kB pad indexed by value-dependent positions)
+                     defs=["DERONLY", "DERLEN=%d" % L], bounds="len = %d" % L, tier="quick" if L <= 8 else "thorough", timeout=900, mem_gb=4))
+for m, tier in ((0, "quick"), (1, "thorough")):     # classes 2, 3, 8: symbolic execution ran out of memory at 12 GB (4 kB pad indexed by value-dependent positions)
     QUERIES.append(Query("rewind_inner_m%d" % m, "C07/h_rewind.c", "harness_rewind_inner", defs=["MANT=%d" % m], unwind=140, timeout=1800, mem_gb=12, tier=tier,
                          desc="rangeproof_rewind_inner, ring layout of mantissa class %d: message copied into a caller buffer of EXACTLY *mlen bytes (every *mlen, NULL buffer / NULL length allowed), indices into s/ev/pad in bounds, reported length <= offered length, for all ring scalars, challenges and re-derived randomness" % m,
                          bounds="mantissa class %d; *mlen 0..128*rings+8" % m))
@@ -45,8 +45,9 @@ for pid, sel in _take.items():
             import copy
             nq = copy.copy(oq); nq.name = pid + "_" + oq.name
             nq.defs = list(oq.defs) + ["EXACTBUF"]; nq.name += "_exactbuf"
-            if pid == "C10" and oq.name == "body_m64_d+0_min0":
-                nq.tier = "quick"      # 32 rings: the class in which the fixed signs[31] / rsizes[32] / pubs[128] arrays are full
+            # (the 32-ring classes m63/m64, in which the fixed signs[31] / rsizes[32] / pubs[128] arrays are exactly full, cost ~15 min each: thorough tier only)
+            if (pid == "C11" and oq.name == "parse_any_len") or (pid == "C16" and oq.name in ("wl_codec_k7", "wl_codec_k1")):
+                nq.tier = "thorough"   # decided in the quick tier of the owning property; here only with the exact-size buffer in the thorough tier
             QUERIES.append(nq)
 LEVEL_TEXT = ("Bounded model checking of every parsing / verification entry point on input objects of exactly the declared (symbolic) length with all of CBMC's memory-safety and undefined-behaviour checks, counting callbacks, "
               "consumer calls on successfully parsed objects and leak checking with failing allocation; large formats (range proof, whitelist, surjection proof, norm argument) per size class.")
